@@ -1,5 +1,8 @@
-(** Properties/C10.v — Derive-time validation (first theorems; the order-freedom theorem follows). *)
-From DarlingModel Require Import Options.Resolve.
+(** Properties/C10.v — Derive-time validation accepts exactly the well-formed declarations.
+    Statements only. *)
+From DarlingModel Require Import Options.Resolve Options.FieldOrderProofs.
+From Coq Require Import Permutation.
+Local Open Scope list_scope.
 
 (** A derive never answers with "both" or "nothing": the outcome type has exactly two cases and
     a rejection carries at least one error. *)
@@ -30,3 +33,48 @@ Proof.
   - intros [= <-]. discriminate.
 Qed.
 Print Assumptions C10_rejection_is_never_empty.
+
+(** The field-option chain ([InputField::parse_nested], whose conflict checks depend on what was
+    read before: `flatten` after `rename` is caught in the flatten arm, `rename` after `flatten` in
+    the rename arm, a repeat in the arm of the repeated option, ...) reports no error EXACTLY when
+    an ORDER-FREE predicate holds of the multiset of option kinds written on the field, over all
+    its attributes: only known options in their accepted form, none repeated (map / and_then share
+    one slot), flatten together with none of rename / with / skip = true / multiple = true.
+    For every option list of any length, in any order, split over attributes in any way. *)
+Theorem C10_field_accept_iff_well_formed :
+  forall reparse reparse_preds rf attrs,
+    Forall list_attr attrs ->
+    (snd (parse_attributes (field_step reparse reparse_preds) (field0 rf) attrs) = nil
+     <-> wf_kinds (map (view reparse reparse_preds) (flat_items attrs)) = true).
+Proof. exact field_attrs_accept_iff_wf. Qed.
+
+(** The predicate does not look at order ... *)
+Theorem C10_well_formedness_is_order_free :
+  forall l l', Permutation l l' -> wf_kinds l = wf_kinds l'.
+Proof. exact wf_kinds_order_free. Qed.
+
+(** ... hence acceptance of a field is invariant under reordering its options and re-splitting
+    them over attributes. *)
+Theorem C10_field_acceptance_order_and_split_free :
+  forall reparse reparse_preds rf attrs attrs',
+    Forall list_attr attrs -> Forall list_attr attrs' ->
+    Permutation (flat_items attrs) (flat_items attrs') ->
+    (snd (parse_attributes (field_step reparse reparse_preds) (field0 rf) attrs) = nil
+     <-> snd (parse_attributes (field_step reparse reparse_preds) (field0 rf) attrs') = nil).
+Proof. exact field_attrs_split_and_order_free. Qed.
+
+(** The chain refines an abstract step on option kinds (state: which options were seen, with the
+    values of skip / multiple): the bridge between the transliterated code and the finite sweep. *)
+Theorem C10_field_step_refines_abstract_step :
+  forall reparse reparse_preds f mi,
+    post_ok f ->
+    let '(f', o) := field_step reparse reparse_preds f mi in
+    let '(s', e) := astep (abs f) (view reparse reparse_preds mi) in
+    abs f' = s' /\ (is_some o = e) /\ post_ok f'.
+Proof. exact field_step_refines. Qed.
+
+Print Assumptions C10_rejection_is_never_empty.
+Print Assumptions C10_field_accept_iff_well_formed.
+Print Assumptions C10_well_formedness_is_order_free.
+Print Assumptions C10_field_acceptance_order_and_split_free.
+Print Assumptions C10_field_step_refines_abstract_step.
